@@ -344,7 +344,7 @@ class State:
         s.roots = {k: memo_clone(v, memo) for k, v in self.roots.items()}
         s.now = self.now
         s.ghost = dict(self.ghost)
-        s.spawns = [memo_clone(g, memo) for g in self.spawns]
+        s.spawns = [(memo_clone(g, memo), memo_clone(p, memo), nd) for g, p, nd in self.spawns]
         s.events = list(self.events)
         s.reads = self.reads
         s._memo = memo
